@@ -169,12 +169,12 @@ def gen_pf(rng):
         pf = {"max_modes": rng.choice([None, 3, 5, 6, 8, 12]), "min_modes": rng.choice([None, 1, 2, 4, 6]),
               "max_photons": rng.choice([None, 1, 2, 3, 4, 6]), "min_photons": rng.choice([None, 1, 2, 3])}
     r = rng.random()
-    if r < 0.08:
+    if r < 0.04:
         cmds = []
-    elif r < 0.2:
+    elif r < 0.09:
         cmds = ["my_command"]
     else:
-        k = rng.randint(1, 3)
+        k = rng.choice([1, 1, 2, 2, 3])
         cmds = rng.sample(METHODS, k)
         if rng.random() < 0.2:
             cmds.insert(rng.randint(0, len(cmds)), "my_command")
@@ -237,6 +237,8 @@ def gen_post(rng, modes):
 def gen_state(rng, m, max_n=None):
     cap = rng.choice([1, 1, 1, 2])
     s = [rng.randint(0, cap) if rng.random() < 0.55 else 0 for _ in range(m)]
+    if m > 0 and sum(s) == 0 and rng.random() < 0.9:
+        s[rng.randrange(m)] = 1
     if max_n is not None:
         while sum(s) > max_n:
             i = rng.choice([j for j, x in enumerate(s) if x > 0])
@@ -252,7 +254,7 @@ def gen_start(rng, tr, max_m):
     """Start of a scenario; `tr` tracks what the generator believes about the processor."""
     if rng.random() < 0.42:
         m = rng.randint(1, max_m)
-        tr.update(m=m, size=m, heralds=[], remote_built=True, sym=[])
+        tr.update(m=m, size=m, heralds=[], remote_built=True, sym=[], has_input=False, has_filter=False)
         circ = gen_circ(rng, m)
         tr["sym"] = [n for _, n in circ["sym"]]
         return {"kind": "remote", "via_set": rng.random() < 0.4, "m": m, "circ": circ,
@@ -277,8 +279,12 @@ def gen_start(rng, tr, max_m):
         heralds = []
         ports = set()
         if m >= 4 and rng.random() < 0.3:
-            for _ in range(rng.randint(1, 2)):
-                name = rng.choice(CATALOG)
+            names = [rng.choice(CATALOG) for _ in range(rng.randint(1, 2))]
+            # a post-processed gate carries a post-selection nothing can be plugged behind: at most one, last
+            if names.count("postprocessed cnot") > 1:
+                names[0] = "heralded cnot"
+            names.sort(key=lambda x: x == "postprocessed cnot")
+            for name in names:
                 st["catalog"].append([rng.randint(0, m - 4), name])
                 nher = {"heralded cnot": 2, "postprocessed cnot": 2, "klm cnot": 4, "heralded cz": 2}[name]
                 heralds += list(range(size, size + nher))
@@ -319,128 +325,189 @@ def gen_start(rng, tr, max_m):
         tail.append({"op": "with_input", "s": gen_state(rng, len(moi), 4)})
     rng.shuffle(tail)
     st["steps"] = steps + tail
-    tr.update(m=len(moi), size=size, heralds=list(heralds), remote_built=False)
+    tr.update(m=len(moi), size=size, heralds=list(heralds), remote_built=False,
+              has_input=any(x["op"] == "with_input" for x in st["steps"]),
+              has_filter=any(x["op"] == "filter" for x in st["steps"]))
     return st
 
 
 def gen_ops(rng, tr, n_ops):
-    ops = []
-    has_sampler = False
-    njobs = 0
-    used_jobs = set()
-    m = tr["m"]
-    size = tr["size"]
-    heralds = list(tr["heralds"])
-    filt_set = False
-    for _ in range(n_ops):
+    """Configuration calls, then (mostly) a sampler phase: sampler, iterations, job creation, execution."""
+    st = {"m": tr["m"], "size": tr["size"], "heralds": list(tr["heralds"]), "filt": tr["has_filter"], "sampler": False,
+          "inp": tr["has_input"],
+          "njobs": 0, "used": set(), "stale": set()}
+
+    def stale_all():
+        # a created job aliases processor._parameters and the sampler's iterator list: jobs created before a
+        # change of either are never executed by the generator (not modelled)
+        st["stale"] = set(range(st["njobs"]))
+
+    def config_op():
         r = rng.random()
+        m, size, heralds = st["m"], st["size"], st["heralds"]
         moi = [k for k in range(size) if k not in heralds]
-        if r < 0.13:
+        if r < 0.24:
             if rng.random() < 0.1:
                 s = gen_state(rng, max(0, m + rng.choice([-1, 1, 2])))
             else:
                 s = gen_state(rng, m, rng.choice([None, 3, 6]))
-            ops.append({"op": "with_input", "s": s})
-        elif r < 0.24:
-            n = rng.choice([None, 0, 0, 0, 1, 1, 2, 3, 5]) if filt_set else rng.choice([0, 0, 1, 2, 3, None])
-            filt_set = filt_set or n is not None
-            ops.append({"op": "filter", "n": n})
-        elif r < 0.30:
-            ops.append({"op": "post", "p": None if rng.random() < 0.25 else gen_post(rng, moi)})
-        elif r < 0.37:
-            ops.append({"op": "noise", "n": None if rng.random() < 0.25 else gen_noise(rng)})
-        elif r < 0.42:
+                st["inp"] = True
+            return {"op": "with_input", "s": s}
+        if r < 0.42:
+            n = rng.choice([None, 0, 0, 1, 1, 2, 3, 5]) if st["filt"] else rng.choice([0, 0, 1, 2, 3])
+            st["filt"] = n is not None
+            stale_all()
+            return {"op": "filter", "n": n}
+        if r < 0.52:
+            return {"op": "post", "p": None if rng.random() < 0.25 else gen_post(rng, moi)}
+        if r < 0.64:
+            return {"op": "noise", "n": None if rng.random() < 0.25 else gen_noise(rng)}
+        if r < 0.72:
+            stale_all()
             k = rng.choice(["thresholded", "foo", "mitigation", "min_detected_photons", "bar"])
-            ops.append({"op": "param", "k": k, "v": rng.choice([None, 0, 1, 7, "on", "x"])})
-        elif r < 0.44:
-            ops.append({"op": "clear_params"})
-        elif r < 0.50 and tr["remote_built"]:
+            return {"op": "param", "k": k, "v": rng.choice([None, 0, 1, 7, "on", "x"])}
+        if r < 0.75:
+            stale_all()
+            return {"op": "clear_params"}
+        if r < 0.87 and tr["remote_built"]:
             rr = rng.random()
             if rr < 0.12 and heralds:
-                ops.append({"op": "add_herald", "mode": rng.choice(heralds), "expected": rng.randint(0, 1)})
-            elif rr < 0.2 and m > 1:
-                ops.append({"op": "add_herald", "mode": rng.choice(moi), "expected": 2})
-            elif m > 1:
+                return {"op": "add_herald", "mode": rng.choice(heralds), "expected": rng.randint(0, 1)}
+            if rr < 0.2 and m > 1:
+                return {"op": "add_herald", "mode": rng.choice(moi), "expected": 2}
+            if m > 1:
                 k = rng.choice(moi)
-                ops.append({"op": "add_herald", "mode": k, "expected": rng.randint(0, 1)})
                 heralds.append(k)
-                m -= 1
-        elif r < 0.64:
-            kw = []
-            if rng.random() < 0.3:
-                pool = ["foo", "max_shots", "max_samples", "circuit", "noise", "heralds", "input_state", "postselect",
-                        "parameters", "job_context"]
-                for k in rng.sample(pool, rng.randint(1, 2)):
-                    kw.append([k, rng.choice([None, 3, 100, "zz"])])
-            cmds = ["probs", "samples", "sample_count", "my_command", "cmd:" + str(rng.randint(0, 9))]
-            ops.append({"op": "prepare", "cmd": rng.choice(cmds), "circuitless": rng.random() < 0.1,
-                        "inputless": rng.random() < 0.1, "kw": kw})
-        elif r < 0.72 or (not has_sampler and r < 0.80):
-            ms = rng.choice([None, 0, -3, 1, 10, 100, 100, 1000, 5000, 100000]) if rng.random() < 0.3 \
-                else rng.choice([10, 100, 1000, 5000, 100000])
-            ops.append({"op": "sampler", "ms": ms})
-            has_sampler = has_sampler or (ms is not None and ms > 0)
-        elif r < 0.80 and has_sampler:
-            its = []
-            for _ in range(rng.randint(1, 3)):
-                it = []
-                keys = rng.sample(["circuit_params", "input_state", "min_detected_photons", "max_samples", "max_shots",
-                                   "noise"], rng.randint(1, 3))
-                if rng.random() < 0.06:
-                    keys.insert(rng.randint(0, len(keys)), "foo")
-                for key in keys:
-                    bad = rng.random() < 0.06
-                    if key == "circuit_params":
-                        names = tr["sym"] if (tr["sym"] and rng.random() < 0.9) else ["zeta"]
-                        d = [[n, rng.choice([0, 1, 2, 3])] for n in names[:rng.randint(1, len(names))]]
-                        if bad:
-                            d[0][1] = "one"
-                        it.append([key, {"cparams": d}])
-                    elif key == "input_state":
-                        if bad:
-                            it.append([key, {"other": True}])
-                        else:
-                            mm = m if rng.random() < 0.9 else m + 1
-                            it.append([key, {"state": gen_state(rng, mm, rng.choice([None, 3]))}])
-                    elif key == "noise":
-                        it.append([key, {"other": True} if bad else {"noise": gen_noise(rng)}])
-                    elif key == "foo":
-                        it.append([key, {"int": 1}])
-                    else:
-                        it.append([key, {"other": True} if bad else {"int": gen_int_val(rng)}])
-                its.append(it)
-            ops.append({"op": "add_iters", "its": its})
-        elif r < 0.82 and has_sampler:
-            ops.append({"op": "clear_iters"})
-        elif r < 0.91 and has_sampler:
-            ops.append({"op": "job", "method": rng.choice(METHODS)})
-            njobs += 1
-        elif njobs > 0:
-            cand = [j for j in range(njobs) if j not in used_jobs] or list(range(njobs))
-            j = rng.choice(cand)
-            used_jobs.add(j)
-            rr = rng.random()
-            if rr < 0.45:
-                args = [gen_int_val(rng)]
-            elif rr < 0.7:
-                args = []
-            elif rr < 0.85:
-                args = [gen_int_val(rng), gen_int_val(rng)]
-            elif rr < 0.92:
-                args = [gen_int_val(rng), gen_int_val(rng), 7]
-            else:
-                args = [rng.choice([None, "7"])]
-            kw = []
-            rr = rng.random()
-            if rr < 0.25:
-                kw.append(["max_samples", rng.choice([gen_int_val(rng), gen_int_val(rng), None])])
-            elif rr < 0.32:
-                kw.append(["max_shots", gen_int_val(rng)])
-            elif rr < 0.38:
-                kw.append(["foo", 1])
+                st["m"] -= 1
+                return {"op": "add_herald", "mode": k, "expected": rng.randint(0, 1)}
+        return prepare_op()
+
+    def prepare_op():
+        kw = []
+        if rng.random() < 0.3:
+            pool = ["foo", "max_shots", "max_samples", "circuit", "noise", "heralds", "input_state", "postselect",
+                    "parameters", "job_context"]
+            for k in rng.sample(pool, rng.randint(1, 2)):
+                kw.append([k, rng.choice([None, 3, 100, "zz"])])
+        cmds = ["probs", "samples", "sample_count", "my_command", "cmd:" + str(rng.randint(0, 9))]
+        return {"op": "prepare", "cmd": rng.choice(cmds), "circuitless": rng.random() < 0.1,
+                "inputless": rng.random() < 0.1, "kw": kw}
+
+    def sampler_op():
+        ms = rng.choice([None, 0, -3, 1, 10]) if rng.random() < 0.12 else rng.choice([10, 100, 1000, 5000, 100000])
+        st["sampler"] = st["sampler"] or (ms is not None and ms > 0)
+        return {"op": "sampler", "ms": ms}
+
+    def iters_op():
+        stale_all()
+        m = st["m"]
+        its = []
+        for _ in range(rng.randint(1, 3)):
+            it = []
+            keys = rng.sample(["circuit_params", "input_state", "min_detected_photons", "max_samples", "max_shots",
+                               "noise"], rng.randint(1, 3))
+            if not tr["sym"] and "circuit_params" in keys and rng.random() < 0.8:
+                keys.remove("circuit_params")
             if rng.random() < 0.05:
-                kw.append(["job_context", 1])
-            ops.append({"op": "execute", "job": j, "args": args, "kw": kw})
+                keys.insert(rng.randint(0, len(keys)), "foo")
+            for key in keys:
+                bad = rng.random() < 0.04
+                if key == "circuit_params":
+                    names = tr["sym"] if (tr["sym"] and rng.random() < 0.92) else ["zeta"]
+                    d = [[n, rng.choice([0, 1, 2, 3])] for n in names[:rng.randint(1, len(names))]]
+                    if bad:
+                        d[0][1] = "one"
+                    it.append([key, {"cparams": d}])
+                elif key == "input_state":
+                    if bad:
+                        it.append([key, {"other": True}])
+                    else:
+                        mm = m if rng.random() < 0.93 else m + 1
+                        it.append([key, {"state": gen_state(rng, mm, rng.choice([None, 3]))}])
+                elif key == "noise":
+                    it.append([key, {"other": True} if bad else {"noise": gen_noise(rng)}])
+                elif key == "foo":
+                    it.append([key, {"int": 1}])
+                else:
+                    it.append([key, {"other": True} if bad else {"int": gen_int_val(rng)}])
+            if it:
+                its.append(it)
+        return {"op": "add_iters", "its": its} if its else {"op": "clear_iters"}
+
+    def job_op():
+        st["njobs"] += 1
+        return {"op": "job", "method": rng.choice(METHODS)}
+
+    def execute_op():
+        cand = [j for j in range(st["njobs"]) if j not in st["used"] and j not in st["stale"]]
+        if st["used"] and rng.random() < 0.1:
+            j = rng.choice(sorted(st["used"]))     # second execution of a job (refused, or dropped when it was sent)
+        elif not cand:
+            return job_op()
+        else:
+            j = cand[-1] if rng.random() < 0.8 else rng.choice(cand)
+        st["used"].add(j)
+        rr = rng.random()
+        if rr < 0.6:
+            args = [gen_int_val(rng)]
+        elif rr < 0.76:
+            args = []
+        elif rr < 0.88:
+            args = [gen_int_val(rng), gen_int_val(rng)]
+        elif rr < 0.93:
+            args = [gen_int_val(rng), gen_int_val(rng), 7]
+        else:
+            args = [rng.choice([None, "7"])]
+        kw = []
+        rr = rng.random()
+        if (not args and rr < 0.5) or rr < 0.06:
+            kw.append(["max_samples", rng.choice([gen_int_val(rng), gen_int_val(rng), gen_int_val(rng), None])])
+        elif rr < 0.10:
+            kw.append(["max_shots", gen_int_val(rng)])
+        elif rr < 0.14:
+            kw.append(["foo", 1])
+        if rng.random() < 0.03:
+            kw.append(["job_context", 1])
+        return {"op": "execute", "job": j, "args": args, "kw": kw}
+
+    ops = []
+    n_cfg = rng.randint(1, max(1, n_ops // 2))
+    if tr["remote_built"] and rng.random() < 0.8:
+        st["filt"] = True
+        ops.append({"op": "filter", "n": rng.choice([0, 0, 1, 2, 3])})
+    for _ in range(n_cfg):
+        ops.append(config_op())
+    if rng.random() < 0.2:
+        ops.append(prepare_op())
+    if rng.random() < 0.85:
+        if not st["inp"] and rng.random() < 0.9:
+            st["inp"] = True
+            ops.append({"op": "with_input", "s": gen_state(rng, st["m"], rng.choice([3, 4]))})
+        if not st["filt"] and rng.random() < 0.9:
+            st["filt"] = True
+            ops.append({"op": "filter", "n": rng.choice([0, 1, 2])})
+        ops.append(sampler_op())
+        left = max(2, n_ops - len(ops))
+        while left > 0:
+            r = rng.random()
+            if r < 0.16:
+                ops.append(iters_op())
+            elif r < 0.19:
+                ops.append({"op": "clear_iters"})
+            elif r < 0.30:
+                ops.append(config_op())
+            elif r < 0.34:
+                ops.append(sampler_op())
+            else:
+                ops.append(job_op())
+                left -= 1
+                if rng.random() < 0.1:
+                    ops.append(config_op())
+                if rng.random() < 0.9:
+                    ops.append(execute_op())
+            left -= 1
+        if st["njobs"] and rng.random() < 0.15:
+            ops.append(execute_op())
     return ops
 
 
@@ -527,6 +594,8 @@ class Session:
         except Discard:
             raise
         except Exception as e:
+            if os.environ.get("C16_DEBUG"):
+                print("DISCARD", type(e).__name__, e, json.dumps(st)[:400])
             raise Discard(f"{type(e).__name__}: {e}")
         self.local = p
         inp = p.input_state
@@ -578,7 +647,8 @@ class Session:
 
     def build_local(self, st):
         pcvl = self.pcvl
-        from perceval.components import Port, Encoding
+        from perceval.components import Port
+        from perceval.utils import Encoding
         self.local_user_input = None
         if st["base"] == "catalog":
             p = pcvl.catalog[st["name"]].build_processor()
@@ -786,7 +856,7 @@ class Session:
 
             def do():
                 job = getattr(self.sampler, op["method"])
-                self.jobs.append([job, False, op["method"], list(it["sampler_its"]), it["max_shots"]])
+                self.jobs.append([job, False, op["method"], list(it["sampler_its"]), it["max_shots"], self.snapshot()])
                 return {"done": True}
             self.run_op({"op": k, "method": op["method"]}, do)
         elif k == "execute":
@@ -816,10 +886,9 @@ class Session:
     def fail(self, sig, what):
         self.oracle_failures.append((sig, what))
 
-    def find_relabelling(self, u_sent, sent_heralds):
+    def find_relabelling(self, it, u_sent, sent_heralds):
         """perm (new mode -> original mode) mapping modes of interest in order and heralds onto heralds of equal
         expected value such that u_sent is the user's matrix relabelled; None if there is none."""
-        it = self.intent
         u = it["circ"]
         n = u.shape[0]
         if u_sent.shape != u.shape:
@@ -845,15 +914,23 @@ class Session:
                 return perm
         return None
 
+    def snapshot(self):
+        """What the user has configured right now (a job describes the processor as it is when the job is created)."""
+        it = dict(self.intent)
+        it["heralds"] = dict(it["heralds"])
+        inp = self.rp.input_state
+        it["rp_input"] = None if inp is None else [int(x) for x in inp]
+        return it
+
     def check_payload(self, pl, cmd, kw_keys, circuitless, inputless, jobrec):
         """The property, evaluated on one deserialised payload against the user's objects."""
         from perceval import BasicState, NoiseModel, PostSelect
         from perceval.components import ACircuit
-        it = self.intent
+        it = self.snapshot() if jobrec is None else jobrec[5]
         rp = self.rp
         self.flags.add("payload")
         sent_heralds = {}
-        if "heralds" in pl and "heralds" not in kw_keys:
+        if isinstance(pl.get("heralds"), dict) or ("heralds" in pl and "heralds" not in kw_keys):
             try:
                 sent_heralds = {int(k): int(v) for k, v in pl["heralds"].items()}
             except Exception:
@@ -874,7 +951,7 @@ class Session:
             if not isinstance(c, ACircuit):
                 self.fail("payload-circuit", f"circuit field is {type(c).__name__}")
             else:
-                perm = self.find_relabelling(numeric_unitary(c), sent_heralds)
+                perm = self.find_relabelling(it, numeric_unitary(c), sent_heralds)
                 if perm is None:
                     self.fail("payload-circuit", "the circuit sent is not the user's circuit (no relabelling of herald "
                                                  "modes makes the matrices equal)")
@@ -886,8 +963,8 @@ class Session:
                 self.fail("payload-input", f"input configured ({it['input']}) but field is {s!r}")
             else:
                 full = [int(x) for x in s]
-                if full != [int(x) for x in rp.input_state]:
-                    self.fail("payload-input", f"input sent {full} != processor input {rp.input_state}")
+                if full != it["rp_input"]:
+                    self.fail("payload-input", f"input sent {full} != processor input {it['rp_input']}")
                 if it["input_fresh"]:
                     moi = [x for i, x in enumerate(full) if i not in sent_heralds]
                     if moi != it["input"]:
@@ -1308,6 +1385,9 @@ def run(chk: core.Check):
         for scen, ses, rep in zip(scens, sess, reps):
             handle(chk, scen, rep, ses)
         done += batch
+    if chk.branches.get("discarded", 0) > 0.03 * n:
+        raise RuntimeError(f"{chk.branches['discarded']} of {n} generated scenarios were discarded (generator out of "
+                           f"its valid domain)")
 
 
 def replay(chk, data):
